@@ -426,29 +426,33 @@ def search(ctx):
                 vios.append({"input": {"command": cmd, "cwd": "<scratch with safe.py, bad.py>"}, "observed": {"verdict": "allow", "reason": dec.reason}, "required": "this command runs bad.py / code that was not analysed: never allow", "oracle": "analysed-file-is-run"})
         # which file runs when the shell expands the script word: <cwd>/~/tool.py and <cwd>/~+/tool.py are inert files at the
         # literal paths, $HOME/tool.py and <cwd>/tool.py are not inert; real bash + the real interpreter say which one runs
-        td = os.path.join(root, "tilde")
-        home = os.path.join(td, "home")
-        for sub in ("~", "~+", "home", "~/sub", "home/sub"):
-            os.makedirs(os.path.join(td, sub), exist_ok=True)
         tbad = "import os\nprint('@@TILDE-BAD' + '-RAN@@')\n"
-        for rel, src in [("~/tool.py", SAFE_SRC), ("~+/tool.py", SAFE_SRC), ("~/sub/tool.py", SAFE_SRC), ("home/tool.py", tbad), ("tool.py", tbad), ("home/sub/tool.py", tbad)]:
-            open(os.path.join(td, rel), "w").write(src)
         saved_home = os.environ.get("HOME")
-        os.environ["HOME"] = home
         try:
-            for word in ["~/tool.py", "~+/tool.py", "~/sub/tool.py", "~/sub/../tool.py", "'~/tool.py'", "\"~\"/tool.py", "~/'tool.py'", "\\~/tool.py", "./~/tool.py"]:
-                for pre, post in [("", ""), ("-B ", ""), ("", " --version"), ("-W ignore ", " -h"), ("-BE ", " x")]:
-                    cmd = "python3 " + pre + word + post
-                    dec = analyze(cmd, Config(), Path(td))
-                    stats["evaluations"] += 1
-                    stats["tilde_forms"] += 1
-                    if dec.action != "allow":
-                        continue
-                    pr = subprocess.run(["/usr/bin/bash", "--norc", "--noprofile", "-c", PY + cmd[len("python3"):]], cwd=td, capture_output=True, timeout=20, stdin=subprocess.DEVNULL, env={"PATH": "/usr/bin:/bin", "HOME": home})
-                    stats["tilde_runs"] += 1
-                    if b"@@TILDE-BAD-RAN@@" in pr.stdout:
-                        vios.insert(0, {"input": {"command": cmd, "cwd": "<scratch: ~/tool.py and ~+/tool.py inert at the literal paths; $HOME/tool.py and ./tool.py import os>"}, "observed": {"verdict": "allow", "reason": dec.reason, "stdout": pr.stdout.decode("utf-8", "replace")[:120]},
-                                        "required": "bash expanded the script word: the file that ran is not the file Dippy analysed - never allow", "oracle": "analysed-file-is-run(tilde)"})
+            # layout A: the literal paths are inert, what the expansion names is not; layout B: the other way round (a quoted
+            # '~/tool.py' runs the literal file)
+            for lay, lit, exp in [("tildeA", SAFE_SRC, tbad), ("tildeB", tbad, SAFE_SRC)]:
+                td = os.path.join(root, lay)
+                home = os.path.join(td, "home")
+                for sub in ("~", "~+", "home", "~/sub", "home/sub"):
+                    os.makedirs(os.path.join(td, sub), exist_ok=True)
+                for rel, src in [("~/tool.py", lit), ("~+/tool.py", lit), ("~/sub/tool.py", lit), ("home/tool.py", exp), ("tool.py", exp), ("home/sub/tool.py", exp)]:
+                    open(os.path.join(td, rel), "w").write(src)
+                os.environ["HOME"] = home
+                for word in ["~/tool.py", "~+/tool.py", "~/sub/tool.py", "~/sub/../tool.py", "'~/tool.py'", "\"~\"/tool.py", "~/'tool.py'", "\\~/tool.py", "./~/tool.py", "'~+/tool.py'", "\"~/sub/tool.py\""]:
+                    for pre, post in [("", ""), ("-B ", ""), ("", " --version"), ("-W ignore ", " -h"), ("-BE ", " x")]:
+                        cmd = "python3 " + pre + word + post
+                        dec = analyze(cmd, Config(), Path(td))
+                        stats["evaluations"] += 1
+                        stats["tilde_forms"] += 1
+                        if dec.action != "allow":
+                            continue
+                        pr = subprocess.run(["/usr/bin/bash", "--norc", "--noprofile", "-c", PY + cmd[len("python3"):]], cwd=td, capture_output=True, timeout=20, stdin=subprocess.DEVNULL, env={"PATH": "/usr/bin:/bin", "HOME": home})
+                        stats["tilde_runs"] += 1
+                        if b"@@TILDE-BAD-RAN@@" in pr.stdout:
+                            where = "~/tool.py and ~+/tool.py inert at the literal paths; $HOME/tool.py and ./tool.py import os" if lay == "tildeA" else "$HOME/tool.py and ./tool.py inert; the files at the literal paths ~/tool.py, ~+/tool.py import os"
+                            vios.insert(0, {"input": {"command": cmd, "cwd": "<scratch: %s>" % where}, "observed": {"verdict": "allow", "reason": dec.reason, "stdout": pr.stdout.decode("utf-8", "replace")[:120]},
+                                            "required": "the file that ran is not the file Dippy analysed (tilde expansion happens for an unquoted ~ only) - never allow", "oracle": "analysed-file-is-run(tilde)"})
         finally:
             if saved_home is None:
                 os.environ.pop("HOME", None)
